@@ -89,8 +89,8 @@ class Loop:
         # the exhausted edge: the switch on discriminant(next()) going to None
         for x in self.blocks:
             for (t, l) in b.succ[x]:
-                if t not in self.blocks:
-                    out.append((x, t, l))
+                if t not in self.blocks and b.can_return(t):
+                    out.append((x, t, l))  # (a way out that can only end in a panic is not an exit: the run is over; which panics are admissible is C04's business)
         # identify the exhaustion switch: the block that follows the next() call
         nxt = self.site.term["t"]
         normal = [(x, t) for (x, t, l) in out if x == nxt]
